@@ -81,7 +81,7 @@ theorem cache_hit_is_direct_conversion {B D : Type} (T : Table) (wf : T.WF) (ops
         convertFormat T ops (some s) f false (ops.fromCache c.id b) := by
   have hchain := Table.chain_sound hc
   have hcm : c ∈ ch := List.mem_of_getElem? hn.1
-  obtain ⟨s, hs⟩ := wf.registered_entry (hchain.mem_convs c hcm) hn.2.1
+  obtain ⟨s, hs⟩ := wf.registered_entry (hchain.mem_convs c hcm) (usableFor_some hn.2.1).1
   refine ⟨s, hs, ?_⟩
   rw [render_hit T ops fresh pretty hf hc hcache hn]
   have hany : ch.any (fun x => x.id == c.id) = true :=
@@ -109,7 +109,7 @@ theorem never_other_diagram {B D : Type} (T : Table) (hs : suffixFreeB T.exts = 
       (∃ e ∈ T.exts, n = u ++ e) ∧ ∀ u' e', e' ∈ T.exts → n = u' ++ e' → u' = u := by
   intro n hn
   obtain ⟨c, hc, e, he, rfl⟩ := render_opened_sub T ops openf fresh cfg u fmt pretty n hn
-  have hmem := usableExt_mem_exts hc he
+  have hmem := usableExt_mem_exts hc (usableFor_some he).1
   refine ⟨⟨e, hmem, rfl⟩, ?_⟩
   intro u' e' he' heq
   exact (Capella.Cache.name_injective (suffixFree_of_B hs) hmem he' heq).1.symm
@@ -133,7 +133,7 @@ theorem miss_is_error_unless_fallback {B D : Type} (T : Table) (ops : Ops B D)
     (hcache : cfg.cache = true) (hallow : cfg.allowRender = false)
     (hn : NoneCached openf u ch) :
     render T ops openf fresh cfg u (some f) pretty =
-      (((ch.filterMap usableExt).map (u ++ ·)).map .opened, .error .notInCache) :=
+      (((ch.filterMap (usableFor u)).map (u ++ ·)).map .opened, .error .notInCache) :=
   render_miss_noallow T ops fresh pretty hf hc hcache hallow hn
 
 /-- **Miss with fallback equals rendering without a cache.** Cache configured, nothing usable
@@ -148,7 +148,7 @@ theorem fallback_equals_uncached {B D : Type} (T : Table) (ops : Ops B D)
     let uncached := render T ops openf' fresh { cache := false, allowRender := a } u (some f) pretty
     (render T ops openf fresh cfg u (some f) pretty).2 = uncached.2 ∧
     (render T ops openf fresh cfg u (some f) pretty).1 =
-      ((ch.filterMap usableExt).map (u ++ ·)).map .opened ++ uncached.1 := by
+      ((ch.filterMap (usableFor u)).map (u ++ ·)).map .opened ++ uncached.1 := by
   simp only
   rw [render_miss_allow T ops fresh pretty hf hc hcache hallow hn,
     render_nocache T ops openf' fresh pretty hf hc rfl]
@@ -192,7 +192,7 @@ theorem as_fmt_miss_is_error_image {B D : Type} (T : Table) (ops : Ops B D)
     (hcache : cfg.cache = true) (hallow : cfg.allowRender = false)
     (hn : NoneCached openf u ch) :
     asFmt T ops openf fresh cfg u f =
-      (((ch.filterMap usableExt).map (u ++ ·)).map .opened ++ [.errImage .render] ++ evsRun false ch,
+      (((ch.filterMap (usableFor u)).map (u ++ ·)).map .opened ++ [.errImage .render] ++ evsRun false ch,
        .ok (runChain ops false ch (ops.errImage .render .notInCache))) := by
   unfold asFmt
   rw [render_miss_noallow T ops fresh false hf hc hcache hallow hn]
@@ -203,6 +203,69 @@ re-uses the loader's own file handler. -/
 theorem cache_spec_dispatch (s : Spec) :
     ((cacheOf s).isSome ↔ s ≠ .falsy) ∧ cacheOf .samePath = some .loaders := by
   cases s <;> simp [cacheOf]
+
+
+/-! ## Composition with the file handlers' path handling (C14 path model)
+
+`cache_handler.open(name)` does not read "the file called `name`": every handler first normalises the
+name (`helpers.normalize_pure_path`, theorems of C14) and reads `<root>/<subdir>/<normalised parts>`.  A
+uuid is an arbitrary string taken from the model file; `x/../_D.svg`, `./_D.svg` and `/_D.svg` all
+normalise to `_D.svg`.  Since `fix: only look up plain file names in the diagram cache` `__load_cache`
+skips a name that is not a single clean path component. -/
+
+/-- **Every name handed to the cache handler is a plain file name**, and therefore every handler
+(local directory, memory, zip, git, HTTP, GitLab artifacts), whatever its `subdir`, resolves it to exactly
+`<normalised subdir>/<name>` — one component, the name itself. -/
+theorem opened_names_resolve_to_themselves {B D : Type} (T : Table) (ops : Ops B D)
+    (openf : Str → Option B) (fresh : Except Err D) (cfg : Cfg) (u : Str) (fmt : Option Str) (pretty : Bool) :
+    ∀ n ∈ openedNames (render T ops openf fresh cfg u fmt pretty).1,
+      plainName n = true ∧
+      ∀ (h : Capella.Path.Handler) (sd : Str),
+        Capella.Path.target h sd n = Capella.Path.normalize [] [sd] ++ [n] := by
+  intro n hn
+  obtain ⟨c, _, e, he, rfl⟩ := render_opened_sub T ops openf fresh cfg u fmt pretty n hn
+  have hp := (usableFor_some he).2
+  exact ⟨hp, fun h sd => target_of_plain h sd _ hp⟩
+
+/-- **Distinct uuids never share a cache file at the handler level — or the lookup refuses.**  For the
+generated extension table and *arbitrary strings* `u ≠ u'`: either one of the two names is not a plain
+file name (then `__load_cache` never asks the handler for it, see `nonplain_never_opened`), or every
+handler with every `subdir` resolves `u ++ e` and `u' ++ e'` to different paths. -/
+theorem distinct_uuids_distinct_paths_or_refused (u u' e e' : Str) (hne : u ≠ u')
+    (he : e ∈ table.exts) (he' : e' ∈ table.exts) :
+    (plainName (u ++ e) = false ∨ plainName (u' ++ e') = false) ∨
+    ∀ (h : Capella.Path.Handler) (sd : Str),
+      Capella.Path.target h sd (u ++ e) ≠ Capella.Path.target h sd (u' ++ e') := by
+  cases hp : plainName (u ++ e)
+  · exact .inl (.inl rfl)
+  · cases hp' : plainName (u' ++ e')
+    · exact .inl (.inr rfl)
+    · refine .inr (fun h sd heq => ?_)
+      rw [target_of_plain h sd _ hp, target_of_plain h sd _ hp'] at heq
+      have := List.append_cancel_left heq
+      simp only [List.cons.injEq, and_true] at this
+      exact hne (name_injective u u' e e' he he' this).1
+
+/-- the refusal: a name that is not a plain file name is never passed to the handler, whatever is
+cached, requested or configured -/
+theorem nonplain_never_opened {B D : Type} (T : Table) (ops : Ops B D)
+    (openf : Str → Option B) (fresh : Except Err D) (cfg : Cfg) (u : Str) (fmt : Option Str) (pretty : Bool)
+    (n : Str) (hn : plainName n = false) :
+    n ∉ openedNames (render T ops openf fresh cfg u fmt pretty).1 := by
+  intro hm
+  have := (opened_names_resolve_to_themselves T ops openf fresh cfg u fmt pretty n hm).1
+  rw [hn] at this; cases this
+
+/-- Before the repair every `uuid ++ ext` went to the handler as it was: the diagrams with the uuids
+`_D` and `x/../_D` (different strings) were both served from the handler path `_D.svg`.  Kept so that a
+reverted repair is recognisable by name. -/
+theorem pinned_pathlike_uuid_reads_other_diagram :
+    "_D".toList ≠ "x/../_D".toList ∧
+    (probeOld (openOf ["x/../_D.svg".toList]) "x/../_D".toList
+      [{ id := "svg".toList, ext := some ".svg".toList, fromCache := true, hasConvert := true, isFormat := true,
+         isPretty := false, depends := none }] 0).1 = ["x/../_D.svg".toList] ∧
+    Capella.Path.target .localDir [] "x/../_D.svg".toList = Capella.Path.target .localDir [] "_D.svg".toList := by
+  decide
 
 /-! ## Non-vacuity: concrete configurations of the generated table (free term interpretation) -/
 
@@ -251,5 +314,16 @@ example :
       ⟨true, true⟩ dU (some "svg".toList) false).2
     = .ok (.convert svgId (.call "convert_svgdiagram".toList .fresh)) := by decide +kernel
 example : table.exts = [".png".toList, ".svg".toList] := by decide +kernel
+
+/-- plain and non-plain names -/
+example : plainName "_yLAzgKNzEeyJNLcTD9ngpQ.svg".toList = true ∧ plainName "x/../_D.svg".toList = false ∧
+    plainName "./_D.svg".toList = false ∧ plainName "/_D.svg".toList = false ∧ plainName "...svg".toList = true := by
+  decide
+
+/-- the repaired lookup: the diagram with the path-like uuid opens nothing and misses, although `_D.svg` is cached -/
+example :
+    (render table termOps (openOf ["_D.svg".toList]) (.ok .fresh) ⟨true, false⟩ "x/../_D".toList (some "svg".toList) false)
+      = ([], .error .notInCache) := by
+  decide +kernel
 
 end Capella.Props.C19
